@@ -457,4 +457,4 @@ mod bench {
 
 #[cfg(kani)]
 #[path = "/verif/harness/may_queue/spsc.rs"]
-mod verif_kani;
+pub(crate) mod verif_kani;
